@@ -20,7 +20,7 @@ Fixpoint wf (path : list N) (t : art) : Prop :=
       exists P, length P = plen /\ pfx = firstn max_in_node P /\
         match ipl with Some k => k = path ++ P | None => True end /\
         wf_ch (path ++ P) ch /\
-        (ipl <> None \/ ch <> CNil \/ plen <= max_in_node)
+        (ipl <> None \/ ch <> CNil \/ (path = [] /\ plen = 0))
   end
 with wf_ch (path : list N) (c : children) : Prop :=
   match c with
@@ -182,38 +182,6 @@ Proof.
   - intros b t IHt r IHr. cbn [seek_ge_ch inorder_ch]. rewrite find_app, IHt, IHr. reflexivity.
 Qed.
 
-(* ---------- bounded exhaustive check of insert (all insertion orders over an adversarial key universe) ---------- *)
+(* ---------- trees built by a sequence of inserts ---------- *)
 Definition build (ks : list key) : option art := fold_left (fun o k => insert_root k o) ks None.
-Definition model_keys (ks : list key) : list key := map fst (fold_left (fun m k => kupsert k tt m) ks []).
-
-Fixpoint keys_eqb (a b : list key) : bool :=
-  match a, b with
-  | [], [] => true
-  | x :: a', y :: b' => bytes_eqb x y && keys_eqb a' b'
-  | _, _ => false
-  end.
-
 Definition long_p : list N := repeat 7%N 22.
-(* the empty key, 0x00/0xFF, keys that are prefixes of others, a shared prefix longer than the 20 stored bytes,
-   divergence inside the stored part (index 5), right after it (index 20) and beyond it (index 21) *)
-Definition universe : list key :=
-  [ []; [0%N]; [0%N; 0%N]; [255%N]; [0%N; 255%N]; long_p; long_p ++ [0%N]; long_p ++ [1%N; 2%N];
-    firstn 21 long_p ++ [9%N]; firstn 20 long_p ++ [8%N]; firstn 5 long_p ++ [3%N] ].
-
-Fixpoint seqs (n : nat) : list (list key) :=
-  match n with
-  | O => [[]]
-  | S n' => [] :: flat_map (fun s => map (fun k => k :: s) universe) (seqs n')
-  end.
-
-Definition map_ok (ks : list key) : bool :=
-  let t := build ks in
-  keys_eqb (keys_of_tree t) (model_keys ks) &&
-  forallb (fun k => Bool.eqb (lookup k t) (existsb (bytes_eqb k) ks)) universe &&
-  forallb (fun lo => match t with
-                     | Some tr => match seek_ge lo tr, find (fun k => lex_leb lo k) (model_keys ks) with
-                                  | Some a, Some b => bytes_eqb a b | None, None => true | _, _ => false end
-                     | None => true end) universe.
-
-Lemma bounded_map_ok : forallb map_ok (seqs 4) = true.
-Proof. vm_compute. reflexivity. Qed.
